@@ -95,12 +95,24 @@ func blankInputWords(m, input string) string {
 	w := strings.Fields(m)
 	for i, x := range w {
 		core := strings.Trim(x, "\"`'.,;:()[]")
-		if core != "" && toks[core] {
+		if len(core) >= 3 && toks[core] && !proseWords[core] {
 			w[i] = strings.Replace(x, core, "_", 1)
 		}
 	}
 	return strings.Join(w, " ")
 }
+
+// words of the messages' own prose that also occur as Caddyfile tokens
+var proseWords = func() map[string]bool {
+	m := map[string]bool{}
+	for _, w := range strings.Fields(`the and not are been was for with without its this that must cannot can each one other both when but found has have only all any more than
+		include exclude list lists element invalid configuration policy module default check enabled disabled error status header path match matcher handler route server listener
+		protocols address count does duplicate duplicated input mapping encoding prefer destinations defaults tls http https automation permission certificate authority challenge
+		provider configured second never used will acts log logs output format level name names`) {
+		m[w] = true
+	}
+	return m
+}()
 
 var wrapperRe = regexp.MustCompile(`^(getting|loading|provisioning|setting up|building|configuring|position|provision|validate|server|route|module name|listener|connection policy) [^:]*: `)
 
